@@ -559,7 +559,8 @@ func (r *aRun) oracleC01SecondOutput(v *aView) {
 }
 
 // every delivered event must be attributable to a sent record (or be the forwarded unfinished last line of a connection)
-func (r *aRun) checkNoPhantoms(v *aView, prop string) {
+func (r *aRun) checkNoPhantoms(v *aView, prop string, alt ...*aReference) {
+	refs := append([]*aReference{v.ref}, alt...) // (after a successful reload a line may have been processed under the new configuration)
 	for st, ds := range v.deliveries {
 		r.out.Obligations++
 		if v.byStamp[st] != nil {
@@ -579,8 +580,10 @@ func (r *aRun) checkNoPhantoms(v *aView, prop string) {
 		}
 		okTail := false
 		for _, tail := range v.tailList {
-			if t := v.ref.eval(tail); t.entry != nil && sameEvent(ds[0].entry, t.entry, false) == "" {
-				okTail = true
+			for _, ref := range refs {
+				if t := ref.eval(tail); t.entry != nil && sameEvent(ds[0].entry, t.entry, false) == "" {
+					okTail = true
+				}
 			}
 		}
 		if okTail {
@@ -1201,7 +1204,11 @@ func (r *aRun) oracleC17(v *aView) {
 	if r.finalDeadlineHit {
 		r.note("C17", "lost-over-reload", "not-delivered", "records were not delivered within the bound after the reloads although the upstream was healthy (queued chunks of the old pipelines not taken over?)")
 	}
-	r.checkNoPhantoms(v, "C17")
+	if okN > 0 {
+		r.checkNoPhantoms(v, "C17", ref2)
+	} else {
+		r.checkNoPhantoms(v, "C17")
+	}
 }
 
 // ---------------------------------------------------------------------------------------------------------------
